@@ -556,6 +556,36 @@ Proof.
   - rewrite H. reflexivity.
 Qed.
 
+(* sequential engine (one partition): result AND appends are exactly those of the list semantics,
+   also when a fail-fast step fails -- the operators in front of it have written their entries *)
+Lemma trun_steps_den : forall ss p,
+    fst (trun_steps ss p) = match fst (den_steps ss p) with Some out => Ok out | None => Panic end /\
+    map tentry_payload (snd (trun_steps ss p)) = snd (den_steps ss p).
+Proof.
+  induction ss as [|s r IH]; intros p; [split; reflexivity|].
+  cbn [trun_steps den_steps]. destruct (step_spec_all s) as [f lg Hrun Hden _ _|v Hrun Hden];
+    rewrite Hrun, Hden.
+  - destruct (IH (f p)) as [H1 H2].
+    destruct (trun_steps r (f p)) as [o lg']. destruct (den_steps r (f p)) as [o' pl'].
+    cbn [fst snd] in *. split; [exact H1|]. rewrite map_app, H2. reflexivity.
+  - destruct (forallb v p); [|split; reflexivity].
+    destruct (IH p) as [H1 H2].
+    destruct (trun_steps r p) as [o lg']. destruct (den_steps r p) as [o' pl'].
+    cbn [fst snd app] in *. split; assumption.
+Qed.
+
+Lemma tree_sequential_exact : forall ss input,
+    existsb is_tvalidation ss = true ->
+    tresult (trun_parts ss [input]) =
+      match fst (den_steps ss input) with Some out => Ok out | None => Panic end /\
+    map (map tentry_payload) (tlogs (trun_parts ss [input])) = [snd (den_steps ss input)].
+Proof.
+  intros ss input Hex. unfold tresult, tlogs, trun_parts. rewrite (plan_tsteps_pinned ss Hex).
+  cbn [map oall]. destruct (trun_steps_den ss input) as [H1 H2]. rewrite H1, H2. split; [|reflexivity].
+  destruct (fst (den_steps ss input)); [|reflexivity]. cbn [obind omap_out concat]. rewrite app_nil_r.
+  reflexivity.
+Qed.
+
 (* branching: a handle whose lineage contains a validation builder computes the list semantics of
    ITS lineage, whatever else is attached to the pipeline (siblings on the same parent, children,
    later calls), for every partitioning *)
@@ -574,6 +604,115 @@ Lemma tree_branch_semantics : forall script more h input ps,
 Proof.
   intros script more h input ps Hwf Hh Hex Hin. eexists. split; [apply tree_collect; assumption|].
   apply tree_list_semantics; assumption.
+Qed.
+
+(* ====================== a panicking run: what may have been appended ====================== *)
+Lemma forallb_filter_id : forall (A : Type) (f : A -> bool) (l : list A),
+    forallb f l = true -> filter f l = l.
+Proof.
+  intros A f l. induction l as [|x r IH]; intros H; [reflexivity|].
+  cbn [forallb] in H. apply andb_true_iff in H. destruct H as [Hx Hr].
+  cbn [filter]. rewrite Hx, (IH Hr). reflexivity.
+Qed.
+
+Lemma relax_validate_run : forall (validate : val -> vresult Z) b keyed p,
+    (relax_builder b = b /\ exists q lg, tvalidate_run validate b keyed p = (Ok q, lg)) \/
+    (tvalidate_run validate b keyed p =
+       (if forallb (is_valid validate) p then (Ok p, []) else (Panic, [])) /\
+     tvalidate_run validate (relax_builder b) keyed p = (Ok (filter (is_valid validate) p), [])).
+Proof.
+  intros validate b keyed p.
+  assert (Hskip : forall b', builder_mode b' = SkipInvalid ->
+                             tvalidate_run validate b' keyed p =
+                             (Ok (filter (is_valid validate) p), [])).
+  { intros b' Hm. unfold tvalidate_run. rewrite Hm. unfold apply. rewrite apply_from_skip.
+    cbn [fst snd]. rewrite tag_log_nil. reflexivity. }
+  assert (Hff : forall b', builder_mode b' = FailFast ->
+                           tvalidate_run validate b' keyed p =
+                           (if forallb (is_valid validate) p then (Ok p, []) else (Panic, []))).
+  { intros b' Hm. unfold tvalidate_run. rewrite Hm. unfold apply. rewrite apply_from_failfast.
+    destruct (forallb (is_valid validate) p); [|reflexivity].
+    cbn [fst snd]. rewrite tag_log_nil. reflexivity. }
+  destruct b as [md c| |].
+  - destruct md.
+    + left. split; [reflexivity|]. rewrite Hskip by reflexivity. eexists. eexists. reflexivity.
+    + left. split; [reflexivity|]. unfold tvalidate_run. cbn [builder_mode]. unfold apply.
+      rewrite apply_from_log. eexists. eexists. reflexivity.
+    + right. split; [apply Hff; reflexivity|apply Hskip; reflexivity].
+  - left. split; [reflexivity|]. rewrite Hskip by reflexivity. eexists. eexists. reflexivity.
+  - right. split; [apply Hff; reflexivity|apply Hskip; reflexivity].
+Qed.
+
+Lemma relax_step_run : forall s p,
+    (relax_step s = s /\ exists q lg, tstep_run s p = (Ok q, lg)) \/
+    (exists v, tstep_run s p = (if forallb v p then (Ok p, []) else (Panic, [])) /\
+               tstep_run (relax_step s) p = (Ok (filter v p), [])).
+Proof.
+  intros s p. destruct s as [c|m r|m|b|c|m r|n c|b|];
+    try (left; split; [reflexivity|eexists; eexists; reflexivity]).
+  - destruct (relax_validate_run validate_val b false p) as [[Hb Hrun]|[H1 H2]].
+    + left. split; [cbn [relax_step]; rewrite Hb; reflexivity|exact Hrun].
+    + right. eexists. split; [exact H1|exact H2].
+  - destruct (relax_validate_run (fun row => validate_val (vsnd row)) b true p) as [[Hb Hrun]|[H1 H2]].
+    + left. split; [cbn [relax_step]; rewrite Hb; reflexivity|exact Hrun].
+    + right. eexists. split; [exact H1|exact H2].
+Qed.
+
+(* one partition: whatever the block appended before it completed or panicked is among what the
+   relaxed block appends *)
+Lemma relax_bound_part : forall ss p,
+    exists rest, Permutation (run_pay (map relax_step ss) p) (run_pay ss p ++ rest).
+Proof.
+  induction ss as [|s r IH]; intros p; [exists []; constructor|].
+  unfold run_pay. cbn [map trun_steps].
+  destruct (relax_step_run s p) as [[Hs [q [lg Hrun]]]|[v [Hrun Hrel]]].
+  - rewrite Hs, Hrun. destruct (IH q) as [rest Hrest]. unfold run_pay in Hrest.
+    destruct (trun_steps (map relax_step r) q) as [o1 l1].
+    destruct (trun_steps r q) as [o2 l2]. cbn [snd] in *.
+    exists rest. rewrite !map_app, <- app_assoc. apply Permutation_app_head. exact Hrest.
+  - rewrite Hrun, Hrel. destruct (forallb v p) eqn:Hv.
+    + rewrite (forallb_filter_id _ _ _ Hv). destruct (IH p) as [rest Hrest]. unfold run_pay in Hrest.
+      destruct (trun_steps (map relax_step r) p) as [o1 l1].
+      destruct (trun_steps r p) as [o2 l2]. cbn [snd app] in *. exists rest. exact Hrest.
+    + destruct (trun_steps (map relax_step r) (filter v p)) as [o1 l1]. cbn [snd app map].
+      exists (map tentry_payload l1). reflexivity.
+Qed.
+
+Lemma relax_bound_parts : forall ss ps,
+    exists rest, Permutation (concat (map (run_pay (map relax_step ss)) ps))
+                             (concat (map (run_pay ss) ps) ++ rest).
+Proof.
+  intros ss ps. induction ps as [|p ps [rest IH]]; [exists []; constructor|].
+  destruct (relax_bound_part ss p) as [r1 H1]. exists (r1 ++ rest). cbn [map concat].
+  rewrite H1, IH. rewrite <- !app_assoc. apply Permutation_app_head.
+  rewrite !app_assoc. apply Permutation_app_tail. apply Permutation_app_comm.
+Qed.
+
+Lemma relax_den_some : forall ss rows, exists out, fst (den_steps (map relax_step ss) rows) = Some out.
+Proof.
+  induction ss as [|s r IH]; intros rows; [eexists; reflexivity|].
+  cbn [map den_steps].
+  assert (Hs : exists rows' pl, den_step (relax_step s) rows = (Some rows', pl)).
+  { destruct s as [c|m r0|m|b|c|m r0|n c|b|]; try (eexists; eexists; reflexivity);
+      cbn [relax_step den_step]; unfold den_validate;
+      destruct b as [md c| |]; try destruct md; cbn [relax_builder builder_mode];
+      eexists; eexists; reflexivity. }
+  destruct Hs as [rows' [pl Hs]]. rewrite Hs. destruct (IH rows') as [out Hout].
+  destruct (den_steps (map relax_step r) rows') as [o pl']. cbn [fst] in *. exists out. exact Hout.
+Qed.
+
+(* every partition run to its own end (completed or panicked): all appends together are, as a
+   multiset, part of what the list semantics of the relaxed lineage appends *)
+Lemma tree_panic_bound : forall ss ps,
+    exists rest,
+      Permutation (snd (den_steps (map relax_step ss) (concat ps)))
+                  (concat (map (run_pay ss) ps) ++ rest).
+Proof.
+  intros ss ps. pose proof (den_run (map relax_step ss) ps) as H.
+  destruct (relax_den_some ss (concat ps)) as [out Hout].
+  destruct (den_steps (map relax_step ss) (concat ps)) as [o pl]. cbn [fst snd] in *. subst o.
+  destruct H as [outs [_ [_ Hp]]]. destruct (relax_bound_parts ss ps) as [rest Hrest].
+  exists rest. rewrite <- Hp. exact Hrest.
 Qed.
 
 (* ====================== the convenience wrappers ====================== *)
